@@ -197,7 +197,8 @@ def run_multi_case(case, seed):
             illegal = [i for i in changed if i != write]
             if illegal:
                 bad.append(("write reached a member other than write_fs", o, res, illegal))
-            if write is None and res.startswith("ok:") and name != "openwrite":
+            if write is None and res.startswith("ok:") and name != "openwrite" and \
+                    not (name == "create" and res == "ok:F"):     # create(existing, wipe=False) writes nothing
                 bad.append(("write succeeded without a write filesystem", o, res, changed))
             if write is None and res.startswith("err:") and res != "err:ResourceReadOnly" and \
                     not res.startswith("err:Illegal") and not res.startswith("err:InvalidChars"):
